@@ -48,6 +48,7 @@ type decKind uint8
 const (
 	decBranch decKind = iota
 	decChoice
+	decSched // a scheduling choice (which goroutine runs next)
 )
 
 // Decision is one element of a path's decision vector.
@@ -62,6 +63,8 @@ func (d Decision) String() string {
 	switch {
 	case d.Kind == decChoice:
 		return fmt.Sprintf("c%d", d.Val)
+	case d.Kind == decSched:
+		return fmt.Sprintf("s%d", d.Val)
 	case d.Aux && d.Taken:
 		return fmt.Sprintf("=%d", d.Val)
 	case d.Aux:
@@ -353,24 +356,54 @@ func (fr *frame) concretizeInt(v value) int64 {
 }
 
 // choose picks one of n alternatives (no solver involvement), forking over all of them.
-func (px *pathCtx) choose(n int) int {
+func (px *pathCtx) choose(n int) int { return px.chooseKind(n, decChoice) }
+
+// chooseSched is choose for scheduling decisions.
+func (px *pathCtx) chooseSched(n int) int { return px.chooseKind(n, decSched) }
+
+func (px *pathCtx) chooseKind(n int, kind decKind) int {
 	if n <= 1 {
 		return 0
 	}
 	k := len(px.trace)
 	if k < len(px.prefix) {
 		d := px.prefix[k]
-		if d.Kind != decChoice {
+		if d.Kind != kind {
 			panic(&pathEnd{kind: endInternal, msg: fmt.Sprintf("replay divergence at decision %d: expected choice, vector has %v", k, d)})
 		}
 		px.trace = append(px.trace, d)
 		return int(d.Val)
 	}
 	for i := n - 1; i >= 1; i-- {
-		px.alt(Decision{Kind: decChoice, Val: uint64(i)})
+		px.alt(Decision{Kind: kind, Val: uint64(i)})
 	}
-	px.trace = append(px.trace, Decision{Kind: decChoice, Val: 0})
+	px.trace = append(px.trace, Decision{Kind: kind, Val: 0})
 	return 0
+}
+
+// IsSched reports whether the decision is a scheduling choice.
+func (d Decision) IsSched() bool { return d.Kind == decSched }
+
+// IsChoice reports whether the decision is a harness-level verifChoose.
+func (d Decision) IsChoice() bool { return d.Kind == decChoice }
+
+// ReplayPath re-executes exactly one path (given by its full decision vector) and returns
+// how it ended and the violations found on it.
+func (e *Engine) ReplayPath(cfg HarnessConfig, vec []Decision) (string, []*Violation) {
+	if cfg.Unwind == 0 {
+		cfg.Unwind = 64
+	}
+	s, err := smt.NewSolver(e.SolverKind, e.QueryTimeoutMs)
+	if err != nil {
+		return "solver: " + err.Error(), nil
+	}
+	defer s.Close()
+	w := &worker{solver: s}
+	pr, px := e.runPath(w, cfg, vec)
+	if w.fallback != nil {
+		w.fallback.Close()
+	}
+	return pr.Kind.String(), px.violations
 }
 
 // violation records a failed assertion with a model of the current path condition plus
